@@ -62,6 +62,7 @@ type Protocol struct {
 	onceStop            sync.Once
 	pendingBytesMu      sync.Mutex
 	pendingSendBytes    int
+	sendInFlight        bool // sendLoop holds dequeued messages not yet handed to the muxer
 	pendingRecvBytes    int
 	pendingRecvSizes    []int // Track sizes of pending received messages for accurate decrement
 	currentStateMu      sync.RWMutex
@@ -294,12 +295,13 @@ func (p *Protocol) WaitSendQueueDrained(timeout time.Duration) bool {
 
 		p.pendingBytesMu.Lock()
 		pending := p.pendingSendBytes
+		inFlight := p.sendInFlight
 		p.pendingBytesMu.Unlock()
 		queueLen := 0
 		if p.sendQueueChan != nil {
 			queueLen = len(p.sendQueueChan)
 		}
-		if pending == 0 && queueLen == 0 {
+		if pending == 0 && queueLen == 0 && !inFlight {
 			return true
 		}
 		if time.Now().After(deadline) {
@@ -535,6 +537,7 @@ waitSendReadyChan:
 				payloadBuf.Write(data)
 				// After sending, decrement pendingSendBytes
 				p.pendingBytesMu.Lock()
+				p.sendInFlight = true
 				p.pendingSendBytes -= len(data)
 				if p.pendingSendBytes < 0 {
 					p.Logger().Warn(
@@ -630,6 +633,10 @@ waitSendReadyChan:
 				break
 			}
 		}
+		// Everything dequeued above has been handed to the muxer
+		p.pendingBytesMu.Lock()
+		p.sendInFlight = false
+		p.pendingBytesMu.Unlock()
 	}
 }
 
